@@ -14,6 +14,9 @@ CHECK = {
         T("schedsim", "TestC04StickinessWindows",
           {"checks": 1500, "shards": 4, "timeout": 600},
           {"checks": 25000, "shards": 12, "timeout": 3000}),
+        T("schedsim", "TestC04NoTaskQueuedWhileWorkerWaits",
+          {"checks": 1500, "shards": 2, "timeout": 600},
+          {"checks": 25000, "shards": 12, "timeout": 3000}),
         T("schedsim", "TestC04Regress.*",
           {"checks": 1, "shards": 1, "timeout": 120},
           {"checks": 1, "shards": 1, "timeout": 120}, plain=True),
